@@ -431,6 +431,45 @@ fn scenario(cx: &mut Ctx, rng: &mut Rng) {
                 let sc: Box<std::ops::Range<u32>> = Box::new(0..(k as u32));
                 same_it = same_it && bc.count() == sc.count();
             }
+            // Future: a boxed future is polled as the future itself is (same Pending/Ready sequence, same
+            // number of polls reaching it); Default: the empty boxed slice and the empty boxed str
+            {
+                use std::future::Future;
+                use std::pin::Pin;
+                use std::task::{Context, Poll, RawWaker, RawWakerVTable, Waker};
+                struct Countdown { left: u32, polls: u32, out: u64 }
+                impl Future for Countdown {
+                    type Output = (u64, u32);
+                    fn poll(mut self: Pin<&mut Self>, _: &mut Context<'_>) -> Poll<(u64, u32)> {
+                        self.polls += 1;
+                        if self.left == 0 { Poll::Ready((self.out, self.polls)) } else { self.left -= 1; Poll::Pending }
+                    }
+                }
+                fn noop_raw() -> RawWaker {
+                    fn no(_: *const ()) {}
+                    fn cl(_: *const ()) -> RawWaker { noop_raw() }
+                    static VT: RawWakerVTable = RawWakerVTable::new(cl, no, no, no);
+                    RawWaker::new(std::ptr::null(), &VT)
+                }
+                let waker = unsafe { Waker::from_raw(noop_raw()) };
+                let mut cxw = Context::from_waker(&waker);
+                let n = (x % 4) as u32;
+                let mut plain = Countdown { left: n, polls: 0, out: x };
+                let mut bf = BBox::new_in(Countdown { left: n, polls: 0, out: x }, cx.bump);
+                let mut sf = Box::new(Countdown { left: n, polls: 0, out: x });
+                for _ in 0..=n {
+                    let p0 = Pin::new(&mut plain).poll(&mut cxw);
+                    let p1 = Pin::new(&mut bf).poll(&mut cxw);
+                    let p2 = Pin::new(&mut sf).poll(&mut cxw);
+                    same = same && p0 == p1 && p0 == p2;
+                }
+                same = same && bf.polls == plain.polls;
+                let e: BBox<[Tok]> = Default::default();
+                let es: BBox<str> = Default::default();
+                same = same && e.len() == 0 && es.len() == 0 && &*es == "";
+                drop(e);
+                drop(es);
+            }
             take_drops();
             drop((b1, b2));
             let d = take_drops();
